@@ -9,6 +9,8 @@ from cspuz.generator import default_uniqueness_checker
 
 def solve_nurikabe(url):
     problem = nurikabe.deserialize_nurikabe(url)
+    if not problem:
+        return None
     height = len(problem)
     width = len(problem[0])
     is_sat, ans = nurikabe.solve_nurikabe(height, width, problem)
@@ -17,6 +19,8 @@ def solve_nurikabe(url):
 
 def solve_masyu(url):
     problem = masyu.deserialize_masyu(url)
+    if not problem:
+        return None
     height = len(problem)
     width = len(problem[0])
     is_sat, ans = masyu.solve_masyu(height, width, problem)
@@ -25,7 +29,7 @@ def solve_masyu(url):
 
 def solve_slitherlink(url):
     problem = slitherlink.deserialize_slitherlink(url)
-    if problem is None:
+    if not problem:
         return None
     height = len(problem)
     width = len(problem[0])
@@ -57,6 +61,8 @@ def solve_lits(url):
 
 def solve_nurimisaki(url):
     problem = nurimisaki.deserialize_nurimisaki(url)
+    if not problem:
+        return None
     height = len(problem)
     width = len(problem[0])
     is_sat, ans = nurimisaki.solve_nurimisaki(height, width, problem)
@@ -65,6 +71,8 @@ def solve_nurimisaki(url):
 
 def solve_yajilin(url):
     problem = yajilin.deserialize_yajilin(url)
+    if not problem:
+        return None
     height = len(problem)
     width = len(problem[0])
     is_sat, grid_frame, is_black = yajilin.solve_yajilin(height, width, problem)
